@@ -19,6 +19,8 @@ import (
 // ccOp is one client operation of a ccontainer scenario (see specs/ccontainer/CContainer.tla).
 //
 //	set v | swap d (callback x -> x+d) | swapnil (SwapValue(nil)) | get
+//	swap d long: the callback stays inside the critical section (the cell's mutex is really
+//	           held) until the "unhold:<client>" move
 //	wait kind: value | change (old) | empty | valid (validator: x == ve -> error, x >= k -> true)
 //	           | validnil (WaitValueWithValidator with a nil validator)
 //	     c: the cancel move is offered; fires: what the environment may deliver on the call's
@@ -27,6 +29,7 @@ type ccOp struct {
 	Op    string   `json:"op"`
 	V     int      `json:"v,omitempty"`
 	D     int      `json:"d,omitempty"`
+	Long  bool     `json:"long,omitempty"`
 	Kind  string   `json:"kind,omitempty"`
 	Old   int      `json:"old,omitempty"`
 	K     int      `json:"k,omitempty"`
@@ -42,25 +45,29 @@ type ccScenario struct {
 }
 
 type ccClient struct {
-	c      *sched.Client
-	idx    int // client index (0-based): process idx+1 of the X spec
-	waitID int
-	waitX  int // the X spec's id of the wait in flight: (idx+1)*100 + (op index+1)  (X-level trace validation)
-	op     ccOp
-	cancel context.CancelFunc
-	canc   bool
-	errCh  chan error
-	errVal error
-	fired  map[string]bool
-	closed bool
+	c        *sched.Client
+	idx      int // client index (0-based): process idx+1 of the X spec
+	waitID   int
+	waitX    int // the X spec's id of the wait in flight: (idx+1)*100 + (op index+1)  (X-level trace validation)
+	op       ccOp
+	cancel   context.CancelFunc
+	canc     bool
+	errCh    chan error
+	errVal   error
+	fired    map[string]bool
+	closed   bool
+	longCh   chan struct{} // non-nil while inside a long SwapValue callback
+	released bool
 }
 
 type ccDriver struct {
-	x      *sched.Exec
-	ctr    *ccontainer.CContainer[int]
-	mu     sync.Mutex
-	nextID int
-	cl     []*ccClient
+	x       *sched.Exec
+	ctr     *ccontainer.CContainer[int]
+	mu      sync.Mutex
+	nextID  int
+	cl      []*ccClient
+	long    *ccClient // the client whose long SwapValue callback is inside the critical section
+	noLong  bool      // teardown: long callbacks return at once
 	lastObs int
 }
 
@@ -88,6 +95,7 @@ func genCContainer(x *sched.Exec) ccScenario {
 				if r.Intn(4) == 0 && sc.M > 0 {
 					op.D = sc.M // result equal under the custom equality: not stored
 				}
+				op.Long = r.Intn(5) < 2
 			case k < 10:
 				op = ccOp{Op: "swapnil"}
 			case k < 11:
@@ -148,6 +156,18 @@ func (d *ccDriver) opFunc(c *ccClient, pi int, op ccOp) sched.Op {
 			x.Log(trace.E{"ev": "call", "id": id, "xid": xid, "op": "swap", "d": op.D, "actor": name})
 			val := d.ctr.SwapValue(func(v int) int {
 				// runs under the container's lock: only compute and log
+				if op.Long && !d.isNoLong() {
+					// stays inside the critical section until the "unhold" move
+					lc := make(chan struct{})
+					d.mu.Lock()
+					c.longCh, d.long = lc, c
+					d.mu.Unlock()
+					x.Log(trace.E{"ev": "swapin", "id": id, "xid": xid, "in": v})
+					<-lc
+					d.mu.Lock()
+					c.longCh, d.long = nil, nil
+					d.mu.Unlock()
+				}
 				out := v + op.D
 				x.Log(trace.E{"ev": "swapcb", "id": id, "xid": xid, "in": v, "out": out})
 				return out
@@ -237,6 +257,38 @@ func (d *ccDriver) opFunc(c *ccClient, pi int, op ccOp) sched.Op {
 	panic("bad op " + op.Op)
 }
 
+func (d *ccDriver) isNoLong() bool {
+	d.mu.Lock()
+	defer d.mu.Unlock()
+	return d.noLong
+}
+
+// held: a long SwapValue callback is inside the critical section (the cell's mutex is held).
+func (d *ccDriver) held() bool {
+	d.mu.Lock()
+	defer d.mu.Unlock()
+	return d.long != nil
+}
+
+// probe reads the cell from the controller at a quiescent point (an ordinary GetValue call for
+// the monitor, actor "ctl"): it tells the monitor what the cell holds where the statement leaves
+// it open (a stored value equal under the custom equality, the order in which concurrent calls
+// took effect), so that "blocked while the content satisfies the condition" is judged on the real
+// content. Not possible while a long callback holds the mutex or a non-wait call is in flight.
+func (d *ccDriver) probe() {
+	if d.held() {
+		return
+	}
+	for _, c := range d.cl {
+		if c.c.Busy() && c.waitID == 0 {
+			return
+		}
+	}
+	id := d.newID()
+	d.x.Log(trace.E{"ev": "call", "id": id, "xid": 0, "op": "get", "actor": "ctl"})
+	d.x.Log(trace.E{"ev": "ret", "id": id, "xid": 0, "res": "ok", "val": d.ctr.GetValue(), "actor": "ctl"})
+}
+
 func (d *ccDriver) blockedIDs() []int {
 	out := []int{}
 	for _, c := range d.cl {
@@ -262,6 +314,11 @@ func (d *ccDriver) blockedXIDs() []int {
 
 func (d *ccDriver) Run(x *sched.Exec, raw json.RawMessage) json.RawMessage {
 	d.x = x
+	// CContainerP judges GetValue / SetValue / SwapValue by call/return order and by the swapcb event
+	// logged inside the critical section (linearizability over all placements of the instants of
+	// effect), waiters by monotone facts: finer park points and combined steps are sound
+	// (see sched.Exec.Double / ParkUnl and W2 in specs/ccontainer/CContainerP.tla)
+	x.OptDouble, x.OptParkUnl = true, true
 	var sc ccScenario
 	if raw != nil {
 		if err := json.Unmarshal(raw, &sc); err != nil {
@@ -286,11 +343,39 @@ func (d *ccDriver) Run(x *sched.Exec, raw json.RawMessage) json.RawMessage {
 		d.cl = append(d.cl, c)
 	}
 
-	envMoves := func() []sched.Move {
+	// While a long callback is inside the critical section the mutex is really held: an actor
+	// released into a blocking Lock would wait on a sync.Mutex, which synctest does not regard as
+	// durably blocked. Only TryLock sites (the attempt fails), goroutine starts and end-of-section
+	// parks may be granted then.
+	grants := func() []sched.Move {
+		held := d.held()
+		var ms []sched.Move
+		for _, a := range x.ParkedActors() {
+			a := a
+			if held {
+				p := a.Parked()
+				if p == nil || p.Kind == "lock" { // (TryLock sites park with Kind "trylock")
+					continue
+				}
+			}
+			ms = append(ms, sched.Move{Label: "grant:" + a.Name, Actor: a.Name, Do: func() { x.Grant(a) }})
+		}
+		return ms
+	}
+	envMoves := func(calls bool) []sched.Move {
 		var ms []sched.Move
 		for _, c := range d.cl {
 			c := c
-			if c.waitID == 0 {
+			d.mu.Lock()
+			lc := c.longCh
+			d.mu.Unlock()
+			if lc != nil && !c.released {
+				ms = append(ms, sched.Move{Label: "unhold:" + c.c.Name, Do: func() {
+					c.released = true
+					close(lc)
+				}})
+			}
+			if c.waitID == 0 || !calls {
 				continue
 			}
 			if c.op.C && !c.canc {
@@ -326,13 +411,21 @@ func (d *ccDriver) Run(x *sched.Exec, raw json.RawMessage) json.RawMessage {
 		return ms
 	}
 	moves := func() []sched.Move {
-		ms := x.GrantMoves()
+		ms := grants()
 		ms = append(ms, x.ClientMoves()...)
-		return append(ms, envMoves()...)
+		return append(ms, envMoves(true)...)
 	}
 	observe := func() {
+		for _, c := range d.cl {
+			if c.longCh == nil {
+				c.released = false
+			}
+		}
 		// library-quiescent (nothing parked at a hook): report who is blocked, once per change
 		if len(x.ParkedActors()) == 0 && x.T.Events() != d.lastObs {
+			if !x.LogSteps {
+				d.probe()
+			}
 			x.Log(trace.E{"ev": "quiet", "blk": d.blockedIDs(), "xblk": d.blockedXIDs()})
 		}
 		d.lastObs = x.T.Events()
@@ -343,13 +436,13 @@ func (d *ccDriver) Run(x *sched.Exec, raw json.RawMessage) json.RawMessage {
 		// X-level trace validation ends here: the cancellations of the teardown are not controller steps
 		x.Log(trace.E{"ev": "teardown"})
 	}
-	// teardown, still one critical section per step: no new calls, cancel every waiter in
-	// flight, grant until nothing is parked; then read the final value
+	// teardown, still one critical section per step: no new calls, leave long callbacks, cancel
+	// every waiter in flight, grant until nothing is parked; then read the final value
 	for _, c := range d.cl {
 		c.c.Prog = nil
 	}
 	for round := 0; round < 3; round++ {
-		x.Loop(x.GrantMoves, observe, x.Steps+200)
+		x.Loop(func() []sched.Move { return append(grants(), envMoves(false)...) }, observe, x.Steps+200)
 		for _, c := range d.cl {
 			if c.waitID != 0 && !c.canc {
 				c.canc = true
@@ -358,7 +451,21 @@ func (d *ccDriver) Run(x *sched.Exec, raw json.RawMessage) json.RawMessage {
 			}
 		}
 	}
+	d.mu.Lock()
+	d.noLong = true
+	d.mu.Unlock()
 	x.Drain()
+	for _, c := range d.cl {
+		// (a long callback entered during the teardown itself)
+		d.mu.Lock()
+		lc := c.longCh
+		d.mu.Unlock()
+		if lc != nil && !c.released {
+			c.released = true
+			close(lc)
+			x.Drain()
+		}
+	}
 	idle := true
 	for _, c := range d.cl {
 		if c.c.Busy() {
